@@ -462,6 +462,34 @@ def run(prog, check):
                      'membership in self.%s decides whether results are computed, and the container is not emptied at the start of the run: '
                      'a second run skips what the first one marked as done' % A, 'a second SolveEquation() on the same solver')
 
+    # ---- R3 (cont.): set-up of the log files tolerates an earlier set-up ---------------------------------------------------------
+    # a `try: <one call of a package function>` whose handlers name classes the callee never raises cannot absorb the callee's own
+    # refusal (e.g. "log already registered"): whether main() then works depends on what the process did before
+    from ..cfg import handler_types as _ht, exc_is_a as _isa, raised_name as _rn
+    byname_ = {}
+    for f_ in prog.all_functions():
+        byname_.setdefault(f_.name, []).append(f_)
+    for f_ in prog.all_functions():
+        if '/deprecated/' in f_.module.rel:
+            continue
+        for t_ in [x_ for x_ in ast.walk(f_.node) if isinstance(x_, ast.Try)]:
+            if len(t_.body) != 1 or not (isinstance(t_.body[0], ast.Expr) and isinstance(t_.body[0].value, ast.Call)) or t_.orelse or t_.finalbody:
+                continue
+            cn_ = call_name(t_.body[0].value)
+            if not cn_ or len(byname_.get(cn_, [])) != 1 or 'log' not in cn_.lower():
+                continue
+            raised_ = {_rn(r_) for r_ in ast.walk(byname_[cn_][0].node) if isinstance(r_, ast.Raise) and r_.exc is not None} - {None}
+            if not raised_:
+                continue
+            for h_ in t_.handlers:
+                tys_ = _ht(h_)
+                hit_ = [r_ for r_ in raised_ if any(ty_ == '*' or _isa(r_, ty_) for ty_ in tys_)]
+                check.saw(f_)
+                check.ob('C17.R3', '%s::handler-matches-refusal(%s)' % (f_.key, cn_), bool(hit_), '%s:%d' % (f_.module.rel, h_.lineno),
+                         'the handler absorbs the %s raised by %s' % (', '.join(sorted(hit_)), cn_) if hit_ else
+                         'the handler catches %s but %s refuses with %s: a log registered earlier in the process makes the run fail'
+                         % (', '.join(tys_), cn_, ', '.join(sorted(raised_))),
+                         'Model.main(base_file_name=...) after the standard logs were registered once before')
     nid = 0
     for f, x, kind, ok in id_uses(prog):
         nid += 1
